@@ -2,6 +2,7 @@ import Toq.Model.ChannelProps
 import Toq.Spec.ChannelProps
 import Toq.Proofs.Cert
 import Toq.Proofs.ChannelOps
+import Toq.Proofs.Rank
 import Mathlib.LinearAlgebra.Matrix.Rank
 import Mathlib.Analysis.Matrix.Order
 import Mathlib.LinearAlgebra.Matrix.Kronecker
@@ -659,3 +660,30 @@ theorem pair_div {di dO : Nat} (i : Fin di) (a : Fin dO) : (i.val * dO + a.val) 
 
 end Toq.ChanPropProofs
 end Ties
+
+
+/-! ## exact rank (shared routine `Toq.Rank`): the matrices the driver hands to it -/
+section ExactRank
+open Toq.ChannelProps Matrix
+namespace Toq.ChanPropProofs
+
+/-- the complex `r × c` matrix denoted by the leading block of exact rows -/
+def qmToM (r c : Nat) (M : QM) : Matrix (Fin r) (Fin c) ℂ := fun i j => (M.get i.val j.val).toC
+
+theorem QM.get_ofFn (r c : Nat) (f : Nat → Nat → QI) (i j : Nat) (hi : i < r) (hj : j < c) :
+    (QM.ofFn r c f).get i j = f i j := by
+  unfold QM.ofFn QM.get
+  simp [hi, hj]
+
+/-- the rows handed to the rank routine by `report` denote the Choi matrix `J` -/
+theorem qmToM_toQM (c : ChoiForm) : qmToM (c.di * c.dO) (c.di * c.dO) c.toQM = c.J.toM := by
+  ext p q
+  unfold qmToM ChoiForm.toQM
+  rw [QM.get_ofFn _ _ _ _ _ p.isLt q.isLt, dif_pos ⟨p.isLt, q.isLt⟩]
+  rfl
+
+theorem rank_toChoi {di dO : Nat} (J : EMat (di * dO) (di * dO)) : (toChoi J).rank = J.toM.rank := by
+  rw [toChoi_eq_submatrix, Matrix.rank_submatrix]
+
+end Toq.ChanPropProofs
+end ExactRank
